@@ -118,7 +118,7 @@ def check_copy_semantics(ctx):
                         if cname == "TimestampingStreamResult":
                             supplied = want.get("timestamp") not in (None, "None")
                             nows = [x for x in effects.calls(r) if x[0] in ("datetime.datetime.now", "datetime.now")]
-                            if supplied and (got.get("timestamp") != TS_ or nows):
+                            if supplied and got.get("timestamp") != TS_:
                                 problems.add("a supplied timestamp is not passed on untouched")
                             if not supplied and (got.get("timestamp") != ("now",) or len(nows) != 1 or (("utc",) not in nows[0][1] and ("tz", ("utc",)) not in nows[0][2])):
                                 problems.add("a missing timestamp is not filled with datetime.now(<UTC>)")
@@ -166,7 +166,7 @@ def _merge_consts(v):
     return ("concat",) + tuple(parts) if len(parts) > 1 else parts[0]
 
 
-def check_queue_semantics(ctx, schema):
+def check_queue_semantics(ctx, schema, rule="R-FIELD-PASSTHROUGH"):
     """StreamToQueue: one dict per call is put on the queue; status events carry every schema field unchanged except
     route_code, which gets the queue's own code in front (alone when the event had none)."""
     from .. import effects
@@ -198,14 +198,14 @@ def check_queue_semantics(ctx, schema):
                     if got != exp_:
                         problems.add(f"field {fld} is sent as {got!r} (expected {exp_!r})")
             label = f"queue code {'set' if own != 'None' else 'None'}, event route code {'given' if rc != 'None' else 'None'}"
-            ctx.check("R-FIELD-PASSTHROUGH", f"StreamToQueue.status [{label}]: one event with every field intact and the route code prefixed", f, bool(res) and not problems,
+            ctx.check(rule, f"StreamToQueue.status [{label}]: one event with every field intact and the route code prefixed", f, bool(res) and not problems,
                       "; ".join(sorted(problems)), construct=f"{REAL}:StreamToQueue.status::semantics {label}")
     for m in ("startTestRun", "stopTestRun"):
         fm = own_method(ctx, REAL, "StreamToQueue", m)
         dom = effects.EffectDomain(classes, attrs={"self": ("self",)}, track=lambda d: d == "self.queue.put")
         res = effects.run(ctx, dom, fm, sq_cls, {})
         ok = bool(res) and all(r.kind == "val" and [e[1] for e in effects.calls(r, "self.queue.put")] == [(("kwdict", (("event", ("const", m)), ("result", ("self",)))),)] for r in res)
-        ctx.check("R-FIELD-PASSTHROUGH", f"StreamToQueue.{m} enqueues its event with result=self", fm, ok,
+        ctx.check(rule, f"StreamToQueue.{m} enqueues its event with result=self", fm, ok,
                   f"StreamToQueue.{m} does not put exactly one {{event: {m!r}, result: self}}", construct=f"{REAL}:StreamToQueue.{m}::event")
 
 
